@@ -403,7 +403,8 @@ def run(prop, tier):
         obs = execute_all([(j['par'], j['hist']) for j in jobs])
         records = [{'id': i + 1, 'par': j['par'], 'hist': j['hist'], 'obs': o}
                    for i, (j, o) in enumerate(zip(jobs, obs))]
-        verdicts, st = validate_records(records, module='CacheTrace.tla', cfg='CacheTrace.cfg')
+        verdicts, st = validate_records(records, module='CacheTrace.tla', cfg='CacheTrace.cfg',
+                                        timeout=900 if tier == 'quick' else 3600)
         res.add_tlc(st)
     except tlc.TlcError as e:
         res.machinery_errors.append(str(e))
